@@ -769,16 +769,21 @@ class ASTNode(DataClassSerializeMixin):
         """
 
         for f in get_cls_props(cls):
-            # Skip id
-            if (f.name == "id") and skip_id:
+            # id, content_id & origin only depend on their own flags
+            # (same as in get_properties)
+            if f.name == "id":
+                if not skip_id:
+                    yield f
                 continue
 
-            # Skip content_id
-            if f.name == "content_id" and skip_content_id:
+            if f.name == "content_id":
+                if not skip_content_id:
+                    yield f
                 continue
 
-            # Skip origin
-            if f.name == "origin" and skip_origin:
+            if f.name == "origin":
+                if not skip_origin:
+                    yield f
                 continue
 
             # Skip non-comparable fields
